@@ -708,6 +708,22 @@ all_prot = 0
 for v in prot_bits.values():
     all_prot |= v
 
+# ------------------------------------------------------------------ MinidumpLinuxMapInfo::is_readable / is_writable / is_executable
+lm_impl = fn_body(mdrs, r"impl(?:<'a>)? MinidumpLinuxMapInfo<'(?:a|_)>\s*\{", "impl MinidumpLinuxMapInfo")
+MAPS_BIT = {"READ": 2, "WRITE": 1, "EXECUTE": 0}      # the case format's rwx bits: r = 4, w = 2, x = 1
+maps_bits = {}
+for which in ("readable", "writable", "executable"):
+    b = norm(fn_body(lm_impl, r"pub fn is_%s\(&self\) -> bool\s*\{" % which, "MinidumpLinuxMapInfo::is_" + which))
+    mm = re.fullmatch(r"self\.map\.perms\.contains\(MMPermissions::(\w+)\)", b)
+    if not mm or mm.group(1) not in MAPS_BIT:
+        die("MinidumpLinuxMapInfo::is_%s: not `self.map.perms.contains(MMPermissions::READ|WRITE|EXECUTE)`: %s" % (which, b))
+    maps_bits[which] = MAPS_BIT[mm.group(1)]
+um = norm(mdrs)
+if ("match self { Self::Info(info) => info.$name($($param),*), Self::Map(map) => map.$name($($param),*), }" not in um or
+        not re.search(r"impl UnifiedMemoryInfo<'_> \{ unified_memory_forward! \{.*?pub fn is_readable\(&self\) -> bool; pub fn is_writable\(&self\) -> bool; "
+                      r"pub fn is_executable\(&self\) -> bool; \} \}", um)):
+    die("UnifiedMemoryInfo no longer forwards is_readable / is_writable / is_executable to the inner record")
+
 # ------------------------------------------------------------------ emit
 L = []
 L.append("(* GENERATED by translate/c19_src.py from minidump-processor/src/{processor,process_state}.rs and minidump/src/minidump.rs — do not edit *)")
@@ -803,6 +819,11 @@ L.append("Definition G_PROT_R_MASK : Z := %d." % prot_masks["readable"])
 L.append("Definition G_PROT_W_MASK : Z := %d." % prot_masks["writable"])
 L.append("Definition G_PROT_X_MASK : Z := %d." % prot_masks["executable"])
 L.append("Definition G_PROT_KNOWN : Z := %d." % all_prot)
+L.append("(* MinidumpLinuxMapInfo::is_readable / is_writable / is_executable: which bit of the maps line's rwx (r = bit 2, w = bit 1, x = bit 0) each asks for;")
+L.append("   UnifiedMemoryInfo forwards the three predicates to the inner record *)")
+L.append("Definition G_MAPS_R_BIT : Z := %d." % maps_bits["readable"])
+L.append("Definition G_MAPS_W_BIT : Z := %d." % maps_bits["writable"])
+L.append("Definition G_MAPS_X_BIT : Z := %d." % maps_bits["executable"])
 out = "\n".join(L) + "\n"
 os.makedirs(outdir, exist_ok=True)
 pth = os.path.join(outdir, "C19Src.v")
